@@ -35,7 +35,8 @@ CHECKS["C16"] = dict(
          "summaries, virtual calls by class-hierarchy analysis) an accepted call sends exactly one OK report "
          "before its first action and a call that ends in a fatal report sends none; the OK text is the "
          "selected expectation's own name field; only set_reporter writes the reporter objects and it returns "
-         "the exchanged value. Holds for all histories because the CFG does not depend on the history.",
+         "the exchanged value. Holds for all histories because the CFG does not depend on the history. " 
+         "The reporter and OK-reporter objects handed out by their accessors have static storage duration and are not thread_local (one installed reporter per process).",
     design_ref="DESIGN.md section 4, C16",
     note="Not decided: what an installed reporter does with the text.")
 
@@ -64,7 +65,8 @@ CHECKS["C15"] = dict(
          "per calling context (so a conforming reporter is never made to throw from a destructor, for every history). "
          "The location argument of each report site flows from the reporting expectation's own loc field over all "
          "callers; the no-match report prints all actual parameters, tests and lists every saturated expectation that "
-         "matches, lists live ones only otherwise, with no early exit from either loop.",
+         "matches, lists live ones only otherwise, with no early exit from either loop. " 
+         "The values printed by a forbidden-call report are derived from the reporting function's call-parameter tuple (not from the expectation's stored values), and the parameter printer visits every index of that tuple unconditionally under its own number.",
     design_ref="DESIGN.md section 4, C15", note="Not decided: wording of the messages.")
 CHECKS["C05"] = dict(
     technique="decision tables of the cost/order/retire_until loop steps by interpreting the extracted CFG over all "
@@ -194,7 +196,8 @@ CHECKS["C17"] = dict(
          "current when the accepted call started is non-null; the agent is created on the accepted path from "
          "tracer_obj() and the candidate's location and text, records all parameters before the actions, the return "
          "value or the exception (what() before unknown; the actions and the return handler run lexically inside the try block whose catch-all records it), and owns its record (no shared state across nested calls); "
-         "tracers save and restore their predecessor and cannot be copied; only set_tracer writes the current tracer.",
+         "tracers save and restore their predecessor and cannot be copied; only set_tracer writes the current tracer. " 
+         "The current-tracer object handed out by its accessor has static storage duration and is not thread_local.",
     design_ref="DESIGN.md section 4, C17", note="Not decided: text layout; non-nested tracer lifetimes (C14 finding).")
 CHECKS["C18"] = dict(
     technique="edge dominance of the null guard in every print() instantiation, insertion census in structural "
@@ -205,7 +208,8 @@ CHECKS["C18"] = dict(
          "every element through print(), so the guard holds at every nesting depth; stream_sentry exchanges width / "
          "flags / fill with 0 / dec|left / ' ' and restores each; every direct insertion of a leaf or of hex-dump "
          "bytes is dominated by a live sentry; opaque values are dumped as sizeof(T) bytes from their address: the byte walk covers exactly [begin, begin+size) once each in address order (span + for_each / range-for, or a counted index loop), every byte is read as unsigned char and reaches a numeric inserter only through types that represent 0..255; "
-         "dispatch traits hold over the listed type family.",
+         "dispatch traits hold over the listed type family. " 
+         "What a collection printer hands to print() for each element has the collection's element type (no array-to-pointer decay, no conversion), so nested collections recurse into the collection printer.",
     design_ref="DESIGN.md section 4, C18", note="Not decided: hex-dump digits and line breaks for every size.")
 
 CHECKS["C14"] = dict(
